@@ -1,6 +1,9 @@
 package tsofix
 
-import "pgregory.net/rapid"
+import (
+	"pdverif/vkit"
+	"pgregory.net/rapid"
+)
 
 var counts = []uint32{1, 1, 1, 2, 10, 1000, 1 << 17, 1<<18 - 2, 1<<18 - 1, 1 << 18, 1<<18 + 1, 1 << 20}
 var rels = []string{"same-1", "same", "same+1", "same+big", "-1ms", "+1ms", "edge-2", "edge-1", "edge", "edge+1", "+save", "+1h", "gap-1", "gap", "past"}
@@ -10,13 +13,13 @@ var rels = []string{"same-1", "same", "same+1", "same+big", "-1ms", "+1ms", "edg
 func GenCase(t *rapid.T, mode string) Case {
 	var c Case
 	c.Cfg.Members = rapid.IntRange(1, 3).Draw(t, "members")
-	c.Cfg.SaveMs = rapid.SampledFrom([]int64{5, 50, 3000}).Draw(t, "save")
-	c.Cfg.UpdMs = rapid.SampledFrom([]int64{1, 50}).Draw(t, "upd")
-	c.Cfg.MaxGapMs = rapid.SampledFrom([]int64{1000, 24 * 3600 * 1000}).Draw(t, "gap")
-	c.Cfg.TTL = rapid.SampledFrom([]int64{600, 100000}).Draw(t, "ttl")
+	c.Cfg.SaveMs = vkit.PickU(t, []int64{5, 50, 3000}, "save")
+	c.Cfg.UpdMs = vkit.PickU(t, []int64{1, 50}, "upd")
+	c.Cfg.MaxGapMs = vkit.PickU(t, []int64{1000, 24 * 3600 * 1000}, "gap")
+	c.Cfg.TTL = vkit.PickU(t, []int64{600, 100000}, "ttl")
 	c.Cfg.UpdaterOnSleep = rapid.Bool().Draw(t, "updOnSleep")
 	for i := 0; i < c.Cfg.Members; i++ {
-		c.Cfg.Offsets = append(c.Cfg.Offsets, rapid.SampledFrom([]int64{0, 0, -3600_000, 3600_000, -1, 1, -c.Cfg.SaveMs - 1}).Draw(t, "off"))
+		c.Cfg.Offsets = append(c.Cfg.Offsets, vkit.PickU(t, []int64{0, 0, -3600_000, 3600_000, -1, 1, -c.Cfg.SaveMs - 1}, "off"))
 	}
 	mem := func() int { return rapid.IntRange(0, c.Cfg.Members-1).Draw(t, "m") }
 	deltas := []int64{-3600_000, -c.Cfg.SaveMs - 1, -1, 1, 2, 50, c.Cfg.SaveMs, c.Cfg.SaveMs + 1, 3600_000}
@@ -28,33 +31,33 @@ func GenCase(t *rapid.T, mode string) Case {
 	}
 	cur := 0
 	for len(c.Ops) < n {
-		k := rapid.IntRange(0, 99).Draw(t, "kind")
+		k := vkit.Uni(t, 100, "kind")
 		m := cur
-		if rapid.IntRange(0, 3).Draw(t, "sameMember") == 0 {
+		if vkit.Uni(t, 4, "sameMember") == 0 {
 			m = mem()
 		}
 		switch {
 		case k < 20:
-			c.Ops = append(c.Ops, Op{K: "gen", M: m, Count: rapid.SampledFrom(counts).Draw(t, "count")})
+			c.Ops = append(c.Ops, Op{K: "gen", M: m, Count: vkit.PickU(t, counts, "count")})
 		case k < 25:
 			// manual reset beyond the stored window, grants up there, then a take-over: the successor
 			// must still start above everything granted (needs the reset to have extended the window)
 			to := mem()
-			c.Ops = append(c.Ops, Op{K: "settso", M: m, Rel: rapid.SampledFrom([]string{"edge", "edge+1", "+save", "+1h", "gap-1"}).Draw(t, "farRel")},
-				Op{K: "gen", M: m, Count: rapid.SampledFrom([]uint32{1, 10, 1000}).Draw(t, "c1")})
-			how := rapid.SampledFrom([]string{"resign", "crash"}).Draw(t, "how2")
+			c.Ops = append(c.Ops, Op{K: "settso", M: m, Rel: vkit.PickU(t, []string{"edge", "edge+1", "+save", "+1h", "gap-1"}, "farRel")},
+				Op{K: "gen", M: m, Count: vkit.PickU(t, []uint32{1, 10, 1000}, "c1")})
+			how := vkit.PickU(t, []string{"resign", "crash"}, "how2")
 			for i := 0; i < c.Cfg.Members; i++ {
 				c.Ops = append(c.Ops, Op{K: how, M: i})
 			}
 			if how == "crash" {
 				for i := 0; i < c.Cfg.Members; i++ {
-					c.Ops = append(c.Ops, Op{K: "restart", M: i, D: rapid.SampledFrom([]int64{0, -3600_000, -1}).Draw(t, "roff2")})
+					c.Ops = append(c.Ops, Op{K: "restart", M: i, D: vkit.PickU(t, []int64{0, -3600_000, -1}, "roff2")})
 				}
 			}
 			c.Ops = append(c.Ops, Op{K: "campaign", M: to}, Op{K: "gen", M: to, Count: 1})
 			cur = to
 		case k < 37:
-			c.Ops = append(c.Ops, Op{K: "clockall", D: rapid.SampledFrom([]int64{1, 2, 3, 50, c.Cfg.SaveMs}).Draw(t, "tick")}, Op{K: "update", M: m})
+			c.Ops = append(c.Ops, Op{K: "clockall", D: vkit.PickU(t, []int64{1, 2, 3, 50, c.Cfg.SaveMs}, "tick")}, Op{K: "update", M: m})
 		case k < 45:
 			op := Op{K: "update", M: m}
 			if rapid.Bool().Draw(t, "stepdown") {
@@ -62,44 +65,44 @@ func GenCase(t *rapid.T, mode string) Case {
 			}
 			c.Ops = append(c.Ops, op)
 		case k < 55:
-			c.Ops = append(c.Ops, Op{K: "settso", M: m, Rel: rapid.SampledFrom(rels).Draw(t, "rel")}, Op{K: "gen", M: m, Count: 1})
+			c.Ops = append(c.Ops, Op{K: "settso", M: m, Rel: vkit.PickU(t, rels, "rel")}, Op{K: "gen", M: m, Count: 1})
 		case k < 61:
-			c.Ops = append(c.Ops, Op{K: "clock", M: m, D: rapid.SampledFrom(deltas).Draw(t, "d")})
+			c.Ops = append(c.Ops, Op{K: "clock", M: m, D: vkit.PickU(t, deltas, "d")})
 		case k < 65:
-			c.Ops = append(c.Ops, Op{K: "clockall", D: rapid.SampledFrom(deltas).Draw(t, "d")})
+			c.Ops = append(c.Ops, Op{K: "clockall", D: vkit.PickU(t, deltas, "d")})
 		case k < 75:
 			// hand-over: the leader steps down or crashes, another member takes over and grants
 			to := mem()
-			kind := rapid.SampledFrom([]string{"resign", "crash", "crash"}).Draw(t, "how")
+			kind := vkit.PickU(t, []string{"resign", "crash", "crash"}, "how")
 			for i := 0; i < c.Cfg.Members; i++ {
 				c.Ops = append(c.Ops, Op{K: kind, M: i})
 			}
 			if kind == "crash" {
 				for i := 0; i < c.Cfg.Members; i++ {
-					c.Ops = append(c.Ops, Op{K: "restart", M: i, D: rapid.SampledFrom([]int64{0, -3600_000, 3600_000, -1, -c.Cfg.SaveMs - 1}).Draw(t, "roff")})
+					c.Ops = append(c.Ops, Op{K: "restart", M: i, D: vkit.PickU(t, []int64{0, -3600_000, 3600_000, -1, -c.Cfg.SaveMs - 1}, "roff")})
 				}
 			}
-			c.Ops = append(c.Ops, Op{K: "campaign", M: to}, Op{K: "gen", M: to, Count: rapid.SampledFrom(counts).Draw(t, "count")})
+			c.Ops = append(c.Ops, Op{K: "campaign", M: to}, Op{K: "gen", M: to, Count: vkit.PickU(t, counts, "count")})
 			cur = to
 		case k < 77:
 			c.Ops = append(c.Ops, Op{K: "campaign", M: m})
 		case k < 79:
 			// the lease runs out while a request is waiting for the next physical tick
-			c.Ops = append(c.Ops, Op{K: "nearexpire", M: m, D: rapid.SampledFrom([]int64{0, 1, 30, 49, 120}).Draw(t, "before")},
-				Op{K: "gen", M: m, Count: 1<<18 - 2}, Op{K: "gen", M: m, Count: rapid.SampledFrom([]uint32{1, 10, 1 << 17}).Draw(t, "c2")}, Op{K: "gen", M: m, Count: 1})
+			c.Ops = append(c.Ops, Op{K: "nearexpire", M: m, D: vkit.PickU(t, []int64{0, 1, 30, 49, 120}, "before")},
+				Op{K: "gen", M: m, Count: 1<<18 - 2}, Op{K: "gen", M: m, Count: vkit.PickU(t, []uint32{1, 10, 1 << 17}, "c2")}, Op{K: "gen", M: m, Count: 1})
 		case k < 82:
 			c.Ops = append(c.Ops, Op{K: "resign", M: m})
 		case k < 88:
-			c.Ops = append(c.Ops, Op{K: "fail", M: m, Fail: rapid.SampledFrom([]string{"before", "lostack"}).Draw(t, "fk")})
+			c.Ops = append(c.Ops, Op{K: "fail", M: m, Fail: vkit.PickU(t, []string{"before", "lostack"}, "fk")})
 		case k < 91:
-			c.Ops = append(c.Ops, Op{K: "losekey", M: m, Fail: rapid.SampledFrom([]string{"overwrite", "delete"}).Draw(t, "lk")},
+			c.Ops = append(c.Ops, Op{K: "losekey", M: m, Fail: vkit.PickU(t, []string{"overwrite", "delete"}, "lk")},
 				Op{K: "clockall", D: c.Cfg.SaveMs + 2}, Op{K: "update", M: m}, Op{K: "gen", M: m, Count: 1})
 		case k < 96:
 			if mode == "c01" || rapid.Bool().Draw(t, "burstInC02") {
-				op := Op{K: "burst", M: m, G: rapid.IntRange(2, 8).Draw(t, "g"), R: rapid.SampledFrom([]int{5, 40, 150}).Draw(t, "r"),
-					Count: rapid.SampledFrom([]uint32{1, 1, 10, 5000, 1 << 16}).Draw(t, "bcount")}
+				op := Op{K: "burst", M: m, G: rapid.IntRange(2, 8).Draw(t, "g"), R: vkit.PickU(t, []int{5, 40, 150}, "r"),
+					Count: vkit.PickU(t, []uint32{1, 1, 10, 5000, 1 << 16}, "bcount")}
 				if rapid.IntRange(0, 2).Draw(t, "burstSet") == 0 {
-					op.Rel = rapid.SampledFrom([]string{"+1ms", "edge-1", "edge", "edge+1", "+save", "+1h"}).Draw(t, "brel")
+					op.Rel = vkit.PickU(t, []string{"+1ms", "edge-1", "edge", "edge+1", "+save", "+1h"}, "brel")
 				}
 				c.Ops = append(c.Ops, op)
 				break
@@ -111,16 +114,16 @@ func GenCase(t *rapid.T, mode string) Case {
 			for i := 0; i < nt; i++ {
 				switch rapid.IntRange(0, 3).Draw(t, "tk") {
 				case 0, 1:
-					op.Tasks = append(op.Tasks, Task{K: "settso", Rel: rapid.SampledFrom([]string{"+1ms", "edge-2", "edge-1", "edge", "edge+1", "+save", "+1h", "same+1"}).Draw(t, "trel")})
+					op.Tasks = append(op.Tasks, Task{K: "settso", Rel: vkit.PickU(t, []string{"+1ms", "edge-2", "edge-1", "edge", "edge+1", "+save", "+1h", "same+1"}, "trel")})
 				case 2:
 					op.Tasks = append(op.Tasks, Task{K: "update"})
 				default:
-					op.Tasks = append(op.Tasks, Task{K: "gen", Count: rapid.SampledFrom([]uint32{1, 10, 1 << 17}).Draw(t, "tcount")})
+					op.Tasks = append(op.Tasks, Task{K: "gen", Count: vkit.PickU(t, []uint32{1, 10, 1 << 17}, "tcount")})
 				}
 			}
 			if rapid.IntRange(0, 3).Draw(t, "raceFault") == 0 {
 				op.FailAt = rapid.IntRange(1, 3).Draw(t, "failAt")
-				op.Fail = rapid.SampledFrom([]string{"before", "lostack"}).Draw(t, "rfk")
+				op.Fail = vkit.PickU(t, []string{"before", "lostack"}, "rfk")
 			}
 			// make the window nearly used so that an update has to save
 			c.Ops = append(c.Ops, Op{K: "clockall", D: c.Cfg.SaveMs - 1}, op, Op{K: "gen", M: m, Count: 1})
